@@ -41,6 +41,7 @@ INFO = {
 }
 
 MANIFEST = {
+    "technique": "bounded symbolic execution of the real create_table with unbounded symbolic production priorities (CrossHair engine + z3); one path per weak ordering; parsing of concrete expressions runs natively on the path's table",
     "level_text": "Bounded symbolic execution of the real conflict-resolution code: operator priorities are unbounded "
     "solver integers, so every path stands for a whole weak ordering of priorities; exhaustive over orderings for "
     "k <= 3 (4 in thorough) operators, all associativity vectors, and the listed alternative orders.",
